@@ -62,6 +62,11 @@ def gen_cases(tier, seed):
         else:
             content = gen.content_of(rng, cls, length)
         cases.append({'fn': 'make_sequence', 'content': content, 'kw': kw, 'tag': cls, 'sel': sel})
+    # symbol counts outside 1..16 must never produce a sequence
+    for sc in (0, 17, 18, 32, -1):
+        for length in (40, 400):
+            cases.append({'fn': 'make_sequence', 'content': gen.content_for_bits('byte', length), 'kw': {'symbol_count': sc},
+                          'tag': 'count-out-of-range', 'sel': 'symbol_count'})
     # single-byte explicit encodings whose bytes differ from the default text -> bytes policy
     for _ in range(40 if tier == 'quick' else 600):
         enc, alphabet = rng.choice([('cp1251', 'Приветмир, '), ('iso-8859-5', 'Приветмир '), ('iso-8859-7', 'αβγδε '),
